@@ -17,6 +17,7 @@ package models
 import (
 	"errors"
 	"fmt"
+	"strings"
 )
 
 // Slice means config model of slice
@@ -40,6 +41,11 @@ type Slice struct {
 func (s *Slice) verify() error {
 	if s.Name == "" {
 		return errors.New("must specify slice name")
+	}
+
+	// the proxy trims the slice name when it loads the namespace; default_slice and the rules' slice lists are compared untrimmed
+	if strings.TrimSpace(s.Name) != s.Name {
+		return fmt.Errorf("slice name %q has leading or trailing white space", s.Name)
 	}
 
 	if s.UserName == "" {
